@@ -218,6 +218,7 @@ class Container:
         self.zeroed = False  # setZero since last resize/gen bump
         self.sub = {}
         self.history = []
+        self.owner = None
         if kind == "struct":
             for f in struct_fields or []:
                 self.sub[f] = Container(name + "." + f, "scal")
@@ -233,6 +234,8 @@ class Container:
             c.bump()
 
     def default(self, key):
+        if self.owner is not None and self.kind in ("rows", "scal", "grid"):
+            self.owner.log_event("read", self, key)
         if self.kind == "rows":
             if self.zeroed:
                 return Vec()
@@ -254,6 +257,8 @@ class Container:
             return self.default(key)
         for k2, v in reversed(self.store):
             eqs = [idx_equal(a, b) for a, b in zip(key, k2)]
+            if any(e is None for e in eqs) and self.owner is not None and self.owner.size_resolver is not None:
+                eqs = [e if e is not None else idx_equal(self.owner.size_resolver(a), self.owner.size_resolver(b)) for e, (a, b) in zip(eqs, zip(key, k2))]
             if all(e is True for e in eqs):
                 return v
             if any(e is False for e in eqs):
@@ -318,6 +323,13 @@ class Interp:
         self.assume = []          # extra facts for index guards
         self.return_value = None
         self.decl_depth = {}
+        self.tracing = False
+        self.size_resolver = None     # concrete-size scenario: substitutes size symbols in index expressions
+        self.assume_nonempty = False
+        self.range_count = None
+        self.trace = []
+        self.trace_stack = [self.trace]
+        self.iter_guards = []
         self.this_obj = []
         self.case = None          # {"first": bool, "last": bool}: kind of the symbolic iteration; size guards use "generic n"
         self.case_log = []
@@ -344,6 +356,29 @@ class Interp:
         return v
 
     def make_value(self, name, ty, symbolic=True):
+        v = self._make_value(name, ty, symbolic)
+        self._own(v)
+        return v
+
+    def _own(self, v):
+        if isinstance(v, Container):
+            v.owner = self
+            for c in v.sub.values():
+                self._own(c)
+        elif isinstance(v, Struct):
+            for x in v.f.values():
+                self._own(x)
+
+    def log_event(self, typ, cont, key=None, extra=None):
+        if not self.tracing:
+            return
+        if extra is None and getattr(self, "range_count", None) is not None:
+            extra = {"count": self.range_count}
+        ev = {"type": typ, "cont": cont.name, "key": tuple(key) if key is not None else None, "zeroed": cont.zeroed,
+              "iter_guards": list(self.iter_guards), "extra": extra}
+        self.trace_stack[-1].append(ev)
+
+    def _make_value(self, name, ty, symbolic=True):
         c = ty.get("c")
         if c in ("double",):
             return S(name, real=True)
@@ -392,7 +427,7 @@ class Interp:
             if n in self.F.records:
                 st = Struct(n, track=name if symbolic else None)
                 for f in self.F.records[n]["fields"]:
-                    st.f[f["name"]] = self.make_value(name + "." + f["name"], f["ty"], symbolic)
+                    st.f[f["name"]] = self._make_value(name + "." + f["name"], f["ty"], symbolic)
                 return st
         return S(name)
 
@@ -443,7 +478,11 @@ class Interp:
             if k == "rows":   # view of several rows -> BlockVec
                 return BlockVec(v.count, [v.cont.read((v.start + j,)) for j in range(v.count)])
             if k == "rowrange":
-                return RangeVal(v.count, v.cont.read((v.start + RSYM,)))
+                self.range_count = v.count
+                try:
+                    return RangeVal(v.count, v.cont.read((v.start + RSYM,)))
+                finally:
+                    self.range_count = None
             if k == "comp":
                 x = self.load(v.target) if isinstance(v.target, Ref) else v.target
                 if not isinstance(x, Vec):
@@ -778,6 +817,7 @@ class Interp:
         if isinstance(v, Container):
             c = Container(v.name, v.kind, v.slots, v.struct_fields)
             c.gen, c.store, c.size, c.zeroed = v.gen, list(v.store), v.size, v.zeroed
+            c.owner = v.owner
             return c
         if isinstance(v, (BlockVec, SmallMat, Struct)):
             return v.copy()
@@ -1002,7 +1042,7 @@ class Interp:
             if isinstance(v, Container):
                 if v.size is not None:
                     return v.size
-                return S(v.name + ".rows", integer=True, nonnegative=True)
+                return S(v.name + ".rows", integer=True, **({"positive": True} if self.assume_nonempty else {"nonnegative": True}))
             if isinstance(v, SmallMat):
                 return Integer(v.r)
             if isinstance(v, BlockVec):
@@ -1040,7 +1080,11 @@ class Interp:
                                        "loop": self.loop_stack[-1]["summary"] if self.loop_stack else None})
 
     def index(self, objr, idx, e):
-        v = self.load(objr) if isinstance(objr, Ref) and objr.kind in ("var", "field") else objr
+        v = objr
+        while isinstance(v, Ref) and v.kind == "var" and isinstance(v.env.get(v.id), Ref):
+            v = v.env[v.id]          # reference parameter / view variable: follow without loading
+        if isinstance(v, Ref) and v.kind in ("var", "field"):
+            v = self.load(v)
         if isinstance(v, SmallMat):
             if len(idx) == 2 and all(sp.sympify(i).is_Integer for i in idx):
                 return Ref("smallelem", mat=v, i=int(idx[0]), j=int(idx[1]))
@@ -1056,12 +1100,12 @@ class Interp:
                 return Ref("elem", cont=v, key=(idx[0], idx[1]))
             if v.kind == "rows" and len(idx) == 2:
                 return self.component(Ref("row", cont=v, idx=idx[0], slot=Integer(0)), idx[1], e)
-        if isinstance(v, Vec) or (isinstance(objr, Ref) and objr.kind in ("row", "blockrow")):
+        if isinstance(v, Vec) or (isinstance(v, Ref) and v.kind in ("row", "blockrow")):
             if len(idx) == 1:
-                return self.component(objr, idx[0], e)
-        if isinstance(v, BlockVec) or (isinstance(objr, Ref) and objr.kind == "rows"):
+                return self.component(v if isinstance(v, Ref) else objr, idx[0], e)
+        if isinstance(v, BlockVec) or (isinstance(v, Ref) and v.kind == "rows"):
             if len(idx) == 2 and sp.sympify(idx[0]).is_Integer:
-                rowref = self.row_of(objr, idx[0], e)
+                rowref = self.row_of(v, idx[0], e)
                 return self.component(rowref, idx[1], e)
         raise Unsupported("indexing %s (line %s)" % (pp(e)[:80], e.get("line")))
 
@@ -1180,7 +1224,7 @@ class Interp:
                 if nm == "size":
                     if v.size is not None:
                         return v.size
-                    return S(v.name + ".size", integer=True, nonnegative=True)
+                    return S(v.name + ".size", integer=True, **({"positive": True} if self.assume_nonempty else {"nonnegative": True}))
                 if nm == "resize":
                     self.resize(v, [self.ev(a, env) for a in args if a.get("k") != "defaultarg"], e)
                     return None
@@ -1236,6 +1280,10 @@ class Interp:
     # -- assignment / effects ------------------------------------------------------
     def record(self, target, key, op, value, node, delta=None):
         eff = Effect(target, key, op, value, list(self.guards), node.get("line") if isinstance(node, dict) else None, delta)
+        if self.tracing:
+            self.trace_stack[-1].append({"type": "effect", "cont": target, "key": tuple(key), "op": op, "value": value if op in ("resize", "=") and isinstance(value, (list, tuple)) else None,
+                                         "iter_guards": list(self.iter_guards), "line": eff.line,
+                                         "extra": {"count": self.range_count} if getattr(self, "range_count", None) is not None else None})
         frames = [ls for ls in self.loop_stack if not ls.get("comp_var")]
         if frames:
             # effects inside nested loops are also visible from the outer summaries
@@ -1314,7 +1362,11 @@ class Interp:
             if not isinstance(v, RangeVal) or not is_zero(v.count - r.count):
                 raise Unsupported("row range assigned from %s" % type(v).__name__)
             r.cont.write((sp.expand(r.start + RSYM),), v.vec)
-            self.record(r.cont.name, (sp.expand(r.start + RSYM),), accumulate or "=", v.vec, node)
+            self.range_count = r.count
+            try:
+                self.record(r.cont.name, (sp.expand(r.start + RSYM),), accumulate or "=", v.vec, node)
+            finally:
+                self.range_count = None
             self.effects_ranges.append((r.cont.name, r.start, r.count, v.vec, node.get("line") if isinstance(node, dict) else None))
             return
         if k == "elem":
@@ -1400,6 +1452,7 @@ class Interp:
             dec = False
         elif self.branch_oracle:
             dec = self.branch_oracle(s, c, self)
+        self.last_iter_kind = None
         if dec is None and self.case is not None:
             dec = self.case_decide(c)
         if dec is True:
@@ -1479,14 +1532,19 @@ class Interp:
         tf, ts, tl, tp = at(first), at(first + step), at(last), at(last - step)
         pat = (tf, ts, tp, tl)
         T, Fa = sp.true, sp.false
+        kind = None
         if pat == (T, Fa, Fa, Fa):
             r = self.case["first"]
+            kind = "first"
         elif pat == (Fa, T, T, T):
             r = not self.case["first"]
+            kind = "notfirst"
         elif pat == (Fa, Fa, Fa, T):
             r = self.case["last"]
+            kind = "last"
         elif pat == (T, T, T, Fa):
             r = not self.case["last"]
+            kind = "notlast"
         elif pat == (T, T, T, T):
             r = True
         elif pat == (Fa, Fa, Fa, Fa):
@@ -1494,6 +1552,7 @@ class Interp:
         else:
             return None
         self.case_log.append(("iter", str(c), r))
+        self.last_iter_kind = (kind, r, v)
         return r
 
     def loop_header(self, s, env):
@@ -1575,6 +1634,13 @@ class Interp:
                     env2[tgt["id"]] = symc
         self.loop_stack.append(frame)
         saved_guards = list(self.guards)
+        saved_iter = self.iter_guards
+        self.iter_guards = []
+        tnode = None
+        if self.tracing:
+            tnode = {"type": "loop", "line": s.get("line"), "var": sym, "lo": lo, "hi": hi, "op": summ.cond_op, "step": step, "items": []}
+            self.trace_stack[-1].append(tnode)
+            self.trace_stack.append(tnode["items"])
         try:
             try:
                 self.exec(s["body"], env2)
@@ -1583,14 +1649,23 @@ class Interp:
         finally:
             self.loop_stack.pop()
             self.guards = saved_guards
+            self.iter_guards = saved_iter
+            if tnode is not None:
+                self.trace_stack.pop()
         if self.loop_stack:
             self.loop_stack[-1]["summary"].inner.append(summ)
         else:
             self.loops.append(summ)
         # containers written in the loop are havoced for subsequent code (dependencies between
         # loops are re-established by the rules through templates, not by unrolling)
+        pushed = set()
         for eff in summ.effects:
             self.havoc_after_loop(eff, env, summ)
+            if eff.op == "push_back" and eff.target not in pushed and hi is not None and summ.cond_op == "<" and step == 1:
+                pushed.add(eff.target)
+                cont = self.find_container(eff.target, env)
+                if cont is not None:
+                    cont.size = sp.expand(cont.size + (hi - lo)) if cont.size is not None else None
         # scalar locals assigned in the loop body are loop-carried: not supported unless accumulators
         return
 
